@@ -180,6 +180,9 @@ impl fmt::Display for ObjUpvalueState {
 pub struct ObjUpvalue {
     data: ObjUpvalueState,
     pub(crate) next: Option<Gc<RefCell<ObjUpvalue>>>,
+    // The fiber whose value stack an open upvalue points into. Keeps that stack alive for as long
+    // as the variable can still be reached through a closure.
+    pub(crate) owner: Option<Gc<RefCell<ObjFiber>>>,
 }
 
 impl ObjUpvalue {
@@ -187,6 +190,7 @@ impl ObjUpvalue {
         ObjUpvalue {
             data: ObjUpvalueState::Open(address),
             next: None,
+            owner: None,
         }
     }
 
@@ -229,6 +233,7 @@ impl ObjUpvalue {
     pub fn close(&mut self) {
         let value = self.get();
         self.data = ObjUpvalueState::Closed(value);
+        self.owner = None;
     }
 }
 
@@ -236,7 +241,11 @@ impl GcManaged for ObjUpvalue {
     fn mark(&self) {
         match self.data {
             ObjUpvalueState::Closed(value) => value.mark(),
-            ObjUpvalueState::Open(_) => {}
+            ObjUpvalueState::Open(_) => {
+                if let Some(owner) = self.owner.as_ref() {
+                    owner.mark();
+                }
+            }
         }
         if let Some(u) = self.next.as_ref() {
             u.mark();
@@ -246,7 +255,11 @@ impl GcManaged for ObjUpvalue {
     fn blacken(&self) {
         match self.data {
             ObjUpvalueState::Closed(value) => value.blacken(),
-            ObjUpvalueState::Open(_) => {}
+            ObjUpvalueState::Open(_) => {
+                if let Some(owner) = self.owner.as_ref() {
+                    owner.blacken();
+                }
+            }
         }
         if let Some(u) = self.next.as_ref() {
             u.blacken();
